@@ -256,7 +256,8 @@ def variants(r, p):
         q['post'] = ''
         v = assemble(q)
         if v == v.rstrip():                  # do not expose trailing whitespace to strip()
-            out.append(('nofrag', v + p['post']))
+            # a trailer that str.strip() does not remove (U+180E, U+200B, ...) is part of the fragment and goes with it
+            out.append(('nofrag', v + (p['post'] if p['post'].strip() == '' else '')))
     if p['ipv4']:
         q = dict(p)
         q['host'] = p['ipv4']
